@@ -16,7 +16,7 @@ Proof. unfold adjust_dir. destruct d, (t_dir t); reflexivity. Qed.
 Lemma on_found_kind d t : t_kind (on_found d t) = t_kind t.
 Proof. unfold on_found. rewrite adjust_dir_kind. destruct d; reflexivity. Qed.
 Lemma on_satisfied_kind d m t : t_kind (on_satisfied d m t) = t_kind t.
-Proof. unfold on_satisfied. cbn. apply adjust_dir_kind. Qed.
+Proof. unfold on_satisfied. cbn. rewrite adjust_dir_kind. reflexivity. Qed.
 
 Lemma sat_pred_kind k d t : sat_pred k d t = true -> t_kind t = k.
 Proof.
@@ -252,7 +252,7 @@ Lemma c07_partial_lemma s d :
   exists a, snd (create_answer (fst (set_remote s TOffer d))) = Ok a /\ c07_mirrors d a.
 Proof.
   intros Hsig Hnd Hd Hus Hcompat Hcod.
-  unfold set_remote in *. rewrite Hsig in *.
+  unfold set_remote in *. rewrite Hsig in *. cbn [remote_next] in *.
   set (s1 := set_sig_remote s HaveRemoteOffer (cur_remote s) (Some d)) in *.
   set (s2 := set_engine s1 (engine_update (r_secs d) (neg_audio s1) (neg_video s1))) in *.
   assert (Htrs : trs s2 = trs s) by reflexivity.
